@@ -1,12 +1,16 @@
 import Csproto.Proofs.Gen
 import Csproto.Model.GenDec
+import Csproto.Model.GenMap
 import Csproto.Bridge.Templates
 /-
   C17 — proto2 required fields are enforced in both directions.
 
   `MissingReq` is the specification: a required field of the message itself, or of any nested message
   *reached while marshaling* (a set message field, a list element, a map value, a set oneof member),
-  is unset.  It is defined on the value alone, independently of the encoder calls.
+  is unset.  It is defined on the value alone, independently of the encoder calls.  A nil pointer as the value
+  of a message-valued map entry is not a message marshaling reaches (`if v == nil { continue }`): `missList`
+  passes over such an entry when it walks a map field (`sk = true`); `missList_nil_entries` shows that for an
+  entry type (`entryMD`) this makes no difference — such an entry has nothing missing anyway.
 
   * `marshal_err_iff`        — generated `Marshal()` returns an error **iff** `MissingReq`, for every
                                schema and value; in particular for the empty message (no shortcut);
@@ -32,14 +36,36 @@ def missField (S : Schema) (fd : FD) : F → Bool
   | .many vs =>
     match fd.ty with
     | .sc _ => false
-    | .msg i => missList S (S.md i) vs
+    | .msg i => missList S (S.md i) fd.card.isMap vs
 def missV (S : Schema) (md : MD) : V → Bool
   | .msg fs _ => missFields S md fs
   | _ => false
-def missList (S : Schema) (md : MD) : List V → Bool
+def missList (S : Schema) (md : MD) (sk : Bool) : List V → Bool
   | [] => false
-  | v :: vs => missV S md v || missList S md vs
+  | v :: vs => (if sk && nilEntry md v then false else missV S md v) || missList S md sk vs
 end
+
+/-- passing over nil-valued entries changes nothing for an entry type: such an entry (key, nil) has no required
+    field, so nothing is missing in it -/
+theorem missList_nil_entries (S : Schema) (kk : SK) (vty : Ty) : ∀ (vs : List V),
+    missList S (entryMD kk vty) true vs = missList S (entryMD kk vty) false vs
+  | [] => rfl
+  | v :: vs => by
+    simp only [missList, missList_nil_entries S kk vty vs, Bool.true_and, Bool.false_and, Bool.false_eq_true, if_false]
+    congr 1
+    by_cases hn : nilEntry (entryMD kk vty) v = true
+    · rw [if_pos hn]
+      simp only [nilEntry, Bool.and_eq_true] at hn
+      obtain ⟨_, hu⟩ := hn
+      cases v with
+      | msg fs u =>
+        match fs, hu with
+        | f0 :: .unset :: rest, _ =>
+          cases f0 <;> simp [missV, missFields, missField, entryMD]
+      | num _ => simp [valUnset] at hu
+      | bs _ => simp [valUnset] at hu
+    · rw [if_neg hn]
+
 
 mutual
 theorem opsFields_err_iff (S : Schema) : ∀ (md : MD) (fs : List F),
@@ -89,7 +115,7 @@ theorem opsField_err_iff (S : Schema) (fd : FD) : ∀ (f : F),
     simp only [opsField, missField]
     cases hty : fd.ty with
     | sc k => simp only []; cases fd.card <;> simp
-    | msg i => simp only []; exact opsMsgList_err_iff S (S.md i) fd.num vs
+    | msg i => simp only []; exact opsMsgList_err_iff S (S.md i) fd.num fd.card.isMap vs
 
 theorem bytesMsgV_err_iff (S : Schema) (md : MD) : ∀ (v : V),
     bytesMsgV S md v = .err ↔ missV S md v = true
@@ -107,28 +133,46 @@ theorem bytesMsgV_err_iff (S : Schema) (md : MD) : ∀ (v : V),
   | .num _ => by simp [bytesMsgV, missV]
   | .bs _ => by simp [bytesMsgV, missV]
 
-theorem opsMsgList_err_iff (S : Schema) (md : MD) (tag : Nat) : ∀ (vs : List V),
-    opsMsgList S md tag vs = .err ↔ missList S md vs = true
+theorem opsMsgList_err_iff (S : Schema) (md : MD) (tag : Nat) (sk : Bool) : ∀ (vs : List V),
+    opsMsgList S md tag sk vs = .err ↔ missList S md sk vs = true
   | [] => by simp [opsMsgList, missList]
   | v :: vs => by
     have h1 := bytesMsgV_err_iff S md v
-    have h2 := opsMsgList_err_iff S md tag vs
+    have h2 := opsMsgList_err_iff S md tag sk vs
     have n1 := bytesMsgV_no_panic S md v
-    have n2 := opsMsgList_no_panic S md tag vs
+    have n2 := opsMsgList_no_panic S md tag sk vs
     simp only [opsMsgList, missList, Bool.or_eq_true]
+    by_cases hn : (sk && nilEntry md v) = true
+    · rw [if_pos hn, if_pos hn]; simpa using h2
+    rw [if_neg hn, if_neg hn]
     cases hb : bytesMsgV S md v with
     | ok body =>
       have : missV S md v = false := by
         cases hm : missV S md v with
         | false => rfl
         | true => rw [h1.mpr hm] at hb; cases hb
-      cases hr : opsMsgList S md tag vs with
+      cases hr : opsMsgList S md tag sk vs with
       | ok rest => simp [this, ← h2, hr]
       | err => simp [← h2, hr]
       | panic => exact absurd hr n2
     | err => simp [h1.mp hb]
     | panic => exact absurd hb n1
 end
+
+/-- a list / map field that adds nothing to `Size()` holds only nil-valued entries: nothing is missing -/
+theorem sizeMsgList_zero (S : Schema) (md : MD) (tag : Nat) (sk : Bool) : ∀ (vs : List V),
+    sizeMsgList S md tag sk vs = 0 → missList S md sk vs = false
+  | [], _ => rfl
+  | v :: vs, hz => by
+    simp only [sizeMsgList] at hz
+    by_cases hn : (sk && nilEntry md v) = true
+    · rw [if_pos hn] at hz
+      simp only [missList, if_pos hn, Bool.false_or]
+      exact sizeMsgList_zero S md tag sk vs (by omega)
+    · rw [if_neg hn] at hz
+      have := sizeOfVarint_pos ((tag <<< 3) % two64)
+      unfold sizeOfTagKey at hz
+      omega
 
 /-- a message type without required fields whose `Size()` is 0 has nothing missing (so the `siz == 0`
     shortcut of `Marshal()` cannot hide an error) -/
@@ -161,13 +205,7 @@ theorem no_required_size_zero (S : Schema) : ∀ (md : MD) (fs : List F),
       | sc k => rfl
       | msg i =>
         simp only [sizeField, hty] at hz1
-        cases vs with
-        | nil => simp [missList]
-        | cons v vs =>
-          simp only [sizeMsgList] at hz1
-          have := sizeOfVarint_pos ((fd.num <<< 3) % two64)
-          unfold sizeOfTagKey at hz1
-          omega
+        exact sizeMsgList_zero S (S.md i) fd.num fd.card.isMap vs hz1
 
 /-- **Marshal reports a missing required field, and only that**, for every schema and value -/
 theorem marshal_err_iff (S : Schema) (md : MD) (fs : List F) (unk : Bytes) :
